@@ -62,6 +62,9 @@ func mergeBounded(prop string, ev map[string]any) {
 //   - functional (strict) units: see replayFunctional.
 func tryReplay(w *World, r *OblResult, workdir string) *replayOutcome {
 	g := r.O.G
+	if g == nil || g.unit == nil {
+		return nil // structural obligation: nothing to execute
+	}
 	if g.fn != nil && g.unit.Strict {
 		return replayFunctional(w, r, workdir)
 	}
